@@ -379,7 +379,9 @@ func (cfg *Config) getCertDuringHandshake(ctx context.Context, hello *tls.Client
 			// By this point, we need to ask the CA for a certificate
 			return cfg.obtainOnDemandCertificate(ctx, hello)
 		}
-		return loadedCert, nil
+		// nothing in storage either and we are not on-demand: do not return the
+		// empty loadedCert with a nil error; fall through to the default/fallback
+		// certificate or the "no certificate available" error below
 	}
 
 	// Fall back to another certificate if there is one (either DefaultServerName or FallbackServerName)
